@@ -8,6 +8,7 @@ import hashlib
 import json
 import os
 import re
+import shutil
 import subprocess
 import sys
 import time
@@ -121,8 +122,39 @@ def load_facts(verbose=False):
             os.makedirs(d, exist_ok=True)
             rdir = resource_dir()
             jobs = [(u, os.path.join(d, u.replace('/', '_') + '.json'), rdir) for u in units]
+            # tools that analyse many scratch copies of the same tree (tools/matrix.py) share the per-unit output of nvx
+            # between them: NV_UNIT_CACHE names a directory keyed by the content of the unit, of every header, the flags
+            # and the nvx binary.  The registered commands do not set it and always extract.
+            ucache = os.environ.get('NV_UNIT_CACHE')
+            ukeys = {}
+            if ucache:
+                os.makedirs(ucache, exist_ok=True)
+                hh = hashlib.sha256()
+                for f in sorted(f for f in os.listdir(SRC) if f.endswith('.h')):
+                    hh.update(f.encode())
+                    hh.update(open(os.path.join(SRC, f), 'rb').read())
+                st_ = os.stat(NVX)
+                hh.update((' '.join(FLAGS) + '%d:%d' % (st_.st_size, int(st_.st_mtime))).encode())
+                for u, out, _ in jobs:
+                    hu = hashlib.sha256(hh.digest())
+                    hu.update(u.encode())
+                    hu.update(open(os.path.join(REPO, u), 'rb').read())
+                    ukeys[u] = os.path.join(ucache, hu.hexdigest()[:32] + '.json')
+
+            def _extract_cached(job):
+                u, out, _ = job
+                ck = ukeys.get(u)
+                if ck and os.path.exists(ck):
+                    shutil.copy(ck, out)
+                    return u, True, ''
+                r = _extract_one(job)
+                if ck and r[1]:
+                    t_ = ck + '.tmp%d' % os.getpid()
+                    shutil.copy(out, t_)
+                    os.replace(t_, ck)
+                return r
             with concurrent.futures.ThreadPoolExecutor(max_workers=16) as ex:
-                results = list(ex.map(_extract_one, jobs))
+                results = list(ex.map(_extract_cached, jobs))
             bad = [(u, e) for u, ok, e in results if not ok]
             if bad:
                 raise AnalysisBroken('nvx failed on %s:\n%s' % (bad[0][0], bad[0][1]))
